@@ -69,6 +69,22 @@ pub type FileEventLog<E> = FileSystemEventLog<FileEvent, E>;
 /// Type of an event log file iterator.
 type Iter = Box<dyn FormatStreamIterator<EventLogRecord> + Send + Sync>;
 
+/// Check the byte range for a record value lies inside the file
+/// before a buffer is allocated for it.
+async fn check_value_range(
+    file_path: &Path,
+    value: &std::ops::Range<u64>,
+) -> std::io::Result<()> {
+    let file_len = vfs::metadata(file_path).await?.len();
+    if value.end < value.start || value.end > file_len {
+        return Err(std::io::Error::new(
+            std::io::ErrorKind::UnexpectedEof,
+            "record value extends beyond the end of the file",
+        ));
+    }
+    Ok(())
+}
+
 /// Read the bytes for the encoded event
 /// inside the log record.
 async fn read_event_buffer(
@@ -79,6 +95,7 @@ async fn read_event_buffer(
     let mut guard = file.lock_read().await.map_err(|e| e.error)?;
 
     let offset = record.value();
+    check_value_range(file_path.as_ref(), &offset).await?;
     let row_len = offset.end - offset.start;
 
     guard.seek(SeekFrom::Start(offset.start)).await?;
@@ -576,6 +593,7 @@ where
         item: &EventLogRecord,
     ) -> StdResult<T, E> {
         let value = item.value();
+        check_value_range(&self.data, &value).await?;
 
         let file = File::open(&self.data).await?;
         let mut guard = file.lock_read().await.map_err(|e| e.error)?;
